@@ -71,7 +71,7 @@ def run_case(case, workdir):
             k = len(sent_json) + 1
             ev = Event(evcategory="base", eventtype="added", objattrs={"n": k, "s": "é" * (k % 3), "l": [k, None, {"k": True}]})
             ev.objtype, ev.objpkey = "T", k
-            sent_json.append(ev.to_json())
+            sent_json.append(ident(ev))
             prod.send(ev)
             obs.append(("none",))
         elif kind == "age":
@@ -108,7 +108,7 @@ def run_case(case, workdir):
         elif kind == "iter":
             out = []
             for ev in cons:
-                js = ev.to_json()
+                js = ident(ev)
                 pid = sent_json.index(js) + 1 if js in sent_json else 0
                 out.append((ev.offset, pid))
             obs.append(("iter", out))
@@ -118,6 +118,13 @@ def run_case(case, workdir):
     H.rmtree(workdir)
     obs.append(("truth", truth))
     return obs
+
+
+def ident(ev):
+    """payload of an event, without the delivery timestamp the consumer attaches to it"""
+    d = json.loads(ev.to_json())
+    d.pop("timestamp", None)
+    return json.dumps(d, sort_keys=True)
 
 
 def case_to_gallina(case, obs):
